@@ -30,3 +30,6 @@ def run(ctx):
     from . import castlingrules
     castlingrules.update_castling_rule(ctx, facts, "A2u")
     castlingrules.constants_rule(ctx, facts, "A3")
+    from .shared import hash_component
+    hash_component(ctx, facts, "A5", "the position a move produces includes the stored hash and the occupancy sets (`color()`, `piece()`, `all`), "
+                   "which the generators and the attack queries read instead of the squares")
